@@ -80,8 +80,10 @@ func c01Fillers() []string {
 
 func c01Matrix(cfg sb.Config, rec *sb.Rec, pool *sb.Pool) {
 	fillers := c01Fillers()
-	rec.R.Extra["matrix_contexts"] = len(c01Contexts)
-	rec.R.Extra["matrix_fillers"] = len(fillers)
+	if cfg.Shard == 0 { // extras are summed over the shards
+		rec.R.Extra["matrix_contexts"] = len(c01Contexts)
+		rec.R.Extra["matrix_fillers"] = len(fillers)
+	}
 	idx := 0
 	for _, c := range c01Contexts {
 		for fi, f := range fillers {
